@@ -1,7 +1,7 @@
 (* Properties/C01.v — Parsing is total and memory-safe on arbitrary bytes (Parse half).
    Only statements, each closed by [exact] of a lemma proved in Proofs/Parse*.v.
    (The view-getter half of C01 is in Properties/C01_views.v, VIEWS cluster.) *)
-From PV Require Import Base.Prelude Base.Slice Model.Parse Model.ParseKnown Proofs.Parse.
+From PV Require Import Base.Prelude Base.Slice Model.Parse Model.ParseKnown Proofs.Parse Proofs.ParseSim Proofs.ParseAcc.
 Open Scope N_scope.
 
 (* ---- Parse never panics / never spins ------------------------------------------------- *)
@@ -38,6 +38,23 @@ Theorem C01_parse_len_only_refuted :
 Proof. exact parse_len_only_refuted. Qed.
 Print Assumptions C01_parse_len_only_refuted.
 
+(* Outside the same ARP class the result (offsets, PayloadID, addresses, ports, the key handed to
+   the host table, the echo id handed to the ping table) is a function of the bytes within the
+   length: any two well-formed slices with equal length and equal bytes within it, whatever their
+   capacities and spare contents, parse identically. *)
+Theorem C01_parse_len_only_partial : forall c s s',
+  wf s -> wf s' -> len s = len s' -> view s = view s' -> k_arp_unsafe (view s) = false ->
+  parse c s = parse c s'.
+Proof. exact parse_len_only_partial. Qed.
+Print Assumptions C01_parse_len_only_partial.
+
+Example C01_parse_len_only_nonvacuous :
+  let s := of_bytes ex_arp28 in let s' := of_bytes_cap ex_arp28 [170;170;170] in
+  wf s /\ wf s' /\ len s = len s' /\ view s = view s' /\ k_arp_unsafe (view s) = false /\
+  (cap s <> cap s')%nat /\ is_ok (parse cfg0 s) = true.
+Proof. exact parse_len_only_nonvacuous. Qed.
+Print Assumptions C01_parse_len_only_nonvacuous.
+
 (* ---- accessors after a nil error -------------------------------------------------------- *)
 
 (* FALSE as the code is: 16-byte 802.1Q frame, Parse returns nil and Frame.Payload() panics. *)
@@ -45,3 +62,21 @@ Theorem C01_frame_accessors_safe_refuted :
   exists c s f, wf s /\ bytes_ok (arr s) /\ parse c s = Ok f /\ frame_payload s f = Panic.
 Proof. exact frame_accessors_safe_refuted. Qed.
 Print Assumptions C01_frame_accessors_safe_refuted.
+
+(* Outside the recorded class k_vlan_short (EtherType 0x8100 with len < 18, 0x88a8 with len < 22) every
+   accessor of the returned Frame (Ether, IP4, IP6, UDP, TCP, Payload) returns without panic either nil
+   or the sub-slice of the input that starts at an offset <= len and runs to the end of the input.
+   (HasIP and the addresses are total by construction: they read Frame fields only.) *)
+Theorem C01_frame_accessors_safe_partial : forall c s f,
+  wf s -> k_vlan_short (view s) = false -> parse c s = Ok f ->
+  acc_inside s (frame_ether s f) /\ acc_inside s (frame_ip4 s f) /\ acc_inside s (frame_ip6 s f) /\
+  acc_inside s (frame_udp s f) /\ acc_inside s (frame_tcp s f) /\ acc_inside s (frame_payload s f).
+Proof. exact frame_accessors_safe_partial. Qed.
+Print Assumptions C01_frame_accessors_safe_partial.
+
+Example C01_frame_accessors_safe_nonvacuous :
+  let s := of_bytes ex_arp28 in
+  wf s /\ k_vlan_short (view s) = false /\ exists f, parse cfg0 s = Ok f /\
+  frame_payload s f = Ok (Some (mkSlice (skipn 14 (arr s)) 28)).
+Proof. exact frame_accessors_safe_nonvacuous. Qed.
+Print Assumptions C01_frame_accessors_safe_nonvacuous.
